@@ -96,6 +96,7 @@ func VerifH_C04_commit() {
 	vC04Prefix(ref, shape)
 	pre, err := vFreshRows(ref)
 	symAssert(err == nil, "pre-readable")
+	preNames := vCurrentNames(ref)
 	m0 := ref.muts
 	symAssert(vC04Txn(ref, kinds), "reference-commit-ok")
 	total := ref.muts - m0
@@ -132,6 +133,15 @@ func VerifH_C04_commit() {
 	got3, err := vFreshRows(bkt)
 	symAssert(err == nil, "after-recovery-readable")
 	symAssert(vRowsEq(got3, got), "after-recovery-same-rows")
+	// C11: the versions that were current before the transaction still denote
+	// the rows they denoted then, whatever the crash interrupted
+	if len(preNames) > 0 {
+		byName, err := vOpen(bkt.fork().client(6), vTableOpts{bf: 2, readOnly: true, versions: preNames}, 990)
+		symAssert(err == nil, "earlier-version-still-opens-by-name")
+		rowsByName, err := vScan(byName)
+		symAssert(err == nil, "earlier-version-still-readable-by-name")
+		symAssert(vRowsEq(rowsByName, pre), "earlier-version-denotes-the-same-rows")
+	}
 	symReach("end")
 }
 
@@ -203,4 +213,13 @@ func VerifH_C04_vacuum() {
 	symAssert(vRowsEq(rows2, pre), "recovery-open-shows-same-rows")
 	symAssert(vVersionsReadable(bkt, kept), "kept-versions-readable-after-crash")
 	symReach("end")
+}
+
+func vCurrentNames(bkt *vBucket) []string {
+	pfx := vPrefix + "/root/current/"
+	var out []string
+	for _, n := range bkt.names(pfx) {
+		out = append(out, n[len(pfx):])
+	}
+	return out
 }
